@@ -1779,6 +1779,29 @@ func (e *boundsEngine) idiomFacts(fn *ssa.Function) []fact {
 			add(zero, e.linOf(c), 0, b, loads)
 		}
 	}
+	// k := sort.SearchInts(a, x) / SearchStrings / SearchFloat64s:  0 <= k <= len(a)
+	for _, b := range fn.Blocks {
+		for _, in := range b.Instrs {
+			c, ok := in.(*ssa.Call)
+			if !ok {
+				continue
+			}
+			f := c.Call.StaticCallee()
+			if f == nil || core.FnPkg(f) == nil || core.FnPkg(f).Path() != "sort" || len(c.Call.Args) != 2 {
+				continue
+			}
+			if f.Name() != "SearchInts" && f.Name() != "SearchStrings" && f.Name() != "SearchFloat64s" {
+				continue
+			}
+			saved := e.pathLoads
+			e.pathLoads = nil
+			L := e.lenLin(c.Call.Args[0])
+			loads := append([]*ssa.UnOp{}, e.pathLoads...)
+			e.pathLoads = saved
+			add(e.linOf(c), L, 0, b, loads)
+			add(zero, e.linOf(c), 0, b, loads)
+		}
+	}
 	return out
 }
 
